@@ -619,6 +619,18 @@ def client_confirm(run, trace):
             return "confirmed"
         rs = json.loads(lines[j])
         case = case_of_reset(rs)
+        if rs.get("seqlen", 0) > 1:
+            # a history of calls on one client: re-run the whole history up to and including this call
+            k = j
+            pos = rs["seqpos"]
+            seq = [case]
+            while pos > 0 and k > 0:
+                k -= 1
+                if '"ev":"reset"' in lines[k]:
+                    r2 = json.loads(lines[k])
+                    seq.insert(0, case_of_reset(r2))
+                    pos -= 1
+            case = {"op": "seq", "seq": seq}
         if rs["pair"] == 1:
             k = j - 1
             while k >= 0 and '"ev":"reset"' not in lines[k]:
